@@ -7,19 +7,27 @@
 (*   stack_storage (+alloca)    alloca_storage.h:26-61                     *)
 (*   placement_alloc            coro_storage.h:133-143                     *)
 (*   reusable_buffer_storage    coro_storage.h:195-212                     *)
-(*   promise_extra_storage<T>   coro_storage.h:220-246                     *)
+(*   promise_extra_storage<T,B> coro_storage.h:220-246: a LAYER (env.ex)    *)
+(*                              over every base policy B above             *)
 (* (static_storage does not satisfy the Storage concept -- its dealloc is  *)
 (* not static -- and cannot be instantiated; it is not modelled.)          *)
 (*                                                                         *)
-(* One module; the policy is chosen in the initial state (env.pol) from    *)
-(* the CONSTANT set Policies.  The model keeps exactly the                 *)
+(* One module; the policy (env.pol), whether the attached-object layer is   *)
+(* put over it (env.ex) and the initial size parameter are chosen in the   *)
+(* initial state.  The model keeps exactly the                             *)
 (* bookkeeping the code keeps and decides from it the way the code does:   *)
-(*   ptr / cap   reusable: _ptr/_capacity; buffer: the vector's block and  *)
-(*               size in bytes; stack: the shared size_t `_state` (cap);   *)
-(*               placement: the size of the buffer the user handed over    *)
+(*   objs[o]     the storage objects (o = 1, 2; the second one only for    *)
+(*               the movable reusable_storage): ptr / cap = _ptr/_capacity *)
+(*               (buffer: the vector's block and size() in bytes; stack:   *)
+(*               the shared size_t `_state` (cap); placement: the size of  *)
+(*               the buffer the user handed over), inv = the frame whose   *)
+(*               attached object `inventory` designates, fac = the factory *)
+(*               is still there (not moved out)                            *)
 (*   busy        reusable_storage_mtsafe::_busy                            *)
-(*   fr[i].tr    what lies behind frame i: the owner pointer (mtsafe),     *)
-(*               the heap flag byte (stack), the attached object (extra)   *)
+(*   fr[i].tr    what the base policy keeps behind frame i: the owner      *)
+(*               pointer (mtsafe), the heap flag byte (stack); fr[i].eo    *)
+(*               the attached object; fr[i].asz / dz the size the base     *)
+(*               policy's alloc got and whether its dealloc got the same   *)
 (*   heap        global heap: slot -> size of the allocated block (0 free).*)
 (* The heap is a bounded array of slots and operator new takes the lowest  *)
 (* free slot; the replayer (harness/storage_replay.cpp) runs the library   *)
@@ -50,56 +58,72 @@
 (***************************************************************************)
 EXTENDS Naturals, Sequences, FiniteSets, TLC
 
-CONSTANTS Policies,   \* subset of {"default","reusable","mtsafe","stack","placement","buffer","extra"}
+CONSTANTS Policies,   \* subset of {"default","reusable","mtsafe","stack","placement","buffer"}
+          ExPolicies, \* policies that are ALSO run as base of promise_extra_storage<T, policy>
           Threads,    \* {t1}: sequential; {t1, t2}: two threads on one reusable_storage_mtsafe
           MaxCreate,  \* bound on the number of frames ever created
+          MaxCreateEx,\* the same under the attached-object layer
           MaxOverlap, \* bound on simultaneously live frames for the policies that permit overlapping
-                      \* lifetimes (default, mtsafe, stack, extra).  reusable / placement / buffer serve
-                      \* ONE live frame at a time -- documented precondition, not generated otherwise
+                      \* lifetimes (default, mtsafe, stack).  reusable / placement / buffer serve
+                      \* ONE live frame at a time per storage object -- documented precondition
           Classes,    \* frame-size classes that are created (subset of 1..3)
           StackInits, \* stack: initial values of the shared size_t
-          BufferInits,\* buffer: initial sizes of the caller's vector
+          BufferInits,\* buffer: initial sizes of the caller's vector (0 or 100*k)
           PlaceInits, \* placement: sizes of the caller's buffer
           NSlots,     \* size of the bounded heap
           Grain,      \* "call" | "atomic" | "alloc"
-          Fixed       \* see above
+          Fixed,      \* see above
+          MaxMoves,   \* reusable: bound on constructions / moves / destructions of storage objects
+          MaxOwner    \* buffer: bound on what the owner does to the vector between two frames
 
-VARIABLES env,    \* [pol, init]: the policy and its initial size parameter; never changes
+VARIABLES env,    \* [pol, ex, init]: never changes
           heap,   \* [1..NSlots -> Nat]: 0 = free, otherwise the size the block was requested with
           fr,     \* sequence of frame records in order of creation (= order in which alloc returned)
-          ptr,    \* slot of the policy's own block (0 = nullptr)
-          cap,    \* the policy's size bookkeeping (see above)
+          objs,   \* [1..2 -> storage object record]
           busy,   \* _busy
           pc,     \* per thread: where it is parked inside alloc / dealloc
-          news, dels,  \* operator new / operator delete calls made by the storage so far
+          news, dels,  \* operator new / operator delete calls made so far
           dbl,    \* operator delete calls on a block that is not allocated (never, says the property)
-          inv,    \* extra: frame whose attached object `storage.inventory` designates (0 = none)
-          torn    \* the storage object has been destroyed
+          torn,   \* every storage object has been destroyed
+          nmov, nown
 
-vars == <<env, heap, fr, ptr, cap, busy, pc, news, dels, dbl, inv, torn>>
+vars == <<env, heap, fr, objs, busy, pc, news, dels, dbl, torn, nmov, nown>>
 
 Policy == env.pol
+Ex == env.ex
 InitSize == env.init
-(* bytes the policy puts behind the frame: the owner pointer, the flag byte, sizeof(T) of the replayer's T *)
-Trailer == CASE Policy = "mtsafe" -> 8 [] Policy = "stack" -> 1 [] Policy = "extra" -> 16 [] OTHER -> 0
-MaxLive == IF Policy \in {"default", "mtsafe", "stack", "extra"} THEN MaxOverlap ELSE 1
+ExtraSz == IF Ex THEN 16 ELSE 0       \* sizeof(T) of the replayer's T
+BaseTrailer == CASE Policy = "mtsafe" -> 8 [] Policy = "stack" -> 1 [] OTHER -> 0   \* owner pointer, flag byte
+Trailer == ExtraSz + BaseTrailer      \* everything that lies behind the frame: the object first, then the base's
+MaxLive == IF Policy \in {"default", "mtsafe", "stack"} THEN MaxOverlap ELSE 1
+MaxFrames == IF Ex THEN MaxCreateEx ELSE MaxCreate
 InitChoices(p) == CASE p = "stack" -> StackInits [] p = "buffer" -> BufferInits [] p = "placement" -> PlaceInits [] OTHER -> {0}
+Movable == Policy = "reusable" /\ Cardinality(Threads) = 1   \* reusable_storage has move construction / assignment
 
 Sz(c) == 100 * c
+Req(c) == Sz(c) + Trailer             \* bytes a frame of class c needs, everything included
+BaseSz(c) == Sz(c) + ExtraSz          \* the size the base policy's alloc -- and dealloc -- is called with
 Slots == 1..NSlots
 Idle == [at |-> "idle", c |-> 0, slot |-> 0]
 At(t, a) == pc[t].at = a
 Park(t, a, c, s) == pc' = [pc EXCEPT ![t] = [at |-> a, c |-> c, slot |-> s]]
 Resume(t) == pc' = [pc EXCEPT ![t] = Idle]
+NoObj == [st |-> "none", ptr |-> 0, cap |-> 0, inv |-> 0, fac |-> FALSE]
+ptr == objs[1].ptr                    \* the thread-safe storage is always object 1
+cap == objs[1].cap
 
 Live == {i \in 1..Len(fr) : fr[i].live}
+LiveOn(o) == {i \in Live : fr[i].o = o}
 Creating == {t \in Threads : pc[t].at \in {"new_heap", "del_old", "new_shared", "del_after"}}
 
 (* ---- the global heap: operator new takes the lowest free slot ---- *)
-St == [heap |-> heap, ptr |-> ptr, cap |-> cap, news |-> news, dels |-> dels, dbl |-> dbl]
-Commit(S) == /\ heap' = S.heap /\ ptr' = S.ptr /\ cap' = S.cap
-             /\ news' = S.news /\ dels' = S.dels /\ dbl' = S.dbl
-Same == UNCHANGED <<heap, ptr, cap, news, dels, dbl>>
+St(o) == [heap |-> heap, ptr |-> objs[o].ptr, cap |-> objs[o].cap, news |-> news, dels |-> dels, dbl |-> dbl]
+CommitH(S) == heap' = S.heap /\ news' = S.news /\ dels' = S.dels /\ dbl' = S.dbl
+CommitI(o, S, i) == CommitH(S) /\ objs' = [objs EXCEPT ![o].ptr = S.ptr, ![o].cap = S.cap, ![o].inv = i]
+Commit(o, S) == CommitI(o, S, objs[o].inv)
+(* promise_extra_storage::alloc, coro_storage.h:228-233: `inventory` designates the object of the newest frame *)
+NewInv(o) == IF Ex THEN Len(fr) + 1 ELSE objs[o].inv
+Same == UNCHANGED <<heap, objs, news, dels, dbl>>
 
 FreeSlots(h) == {s \in Slots : h[s] = 0}
 Lowest(h) == CHOOSE s \in FreeSlots(h) : \A r \in FreeSlots(h) : s <= r
@@ -107,148 +131,178 @@ DoNew(S, sz) == [S EXCEPT !.heap[Lowest(S.heap)] = sz, !.news = @ + 1]
 DoDel(S, s) == IF s = 0 THEN S          \* operator delete(nullptr)
                ELSE IF S.heap[s] = 0 THEN [S EXCEPT !.dels = @ + 1, !.dbl = @ + 1]
                ELSE [S EXCEPT !.heap[s] = 0, !.dels = @ + 1]
+(* new block first, old block released afterwards *)
+Replace(S, sz) == DoDel([DoNew(S, sz) EXCEPT !.ptr = Lowest(S.heap)], S.ptr)
 
 (* reusable_storage::alloc, coro_storage.h:48-55: grows when the request exceeds _capacity *)
 Grow(S, sz) ==
     IF Fixed
-      THEN DoDel([DoNew(S, sz) EXCEPT !.ptr = Lowest(S.heap), !.cap = sz], S.ptr)
+      THEN [Replace(S, sz) EXCEPT !.cap = sz]
       ELSE LET S1 == DoDel(S, S.ptr) IN [DoNew(S1, sz) EXCEPT !.ptr = Lowest(S1.heap), !.cap = sz]
 ReuseAlloc(S, sz) == IF sz > S.cap THEN Grow(S, sz) ELSE S
 
-(* reusable_buffer_storage::alloc, coro_storage.h:202-207: _buff.resize() when too small; a vector
-   allocates the new block, moves the elements, then releases the old block *)
-BufAlloc(S, sz) ==
-    IF S.cap < sz THEN DoDel([DoNew(S, sz) EXCEPT !.ptr = Lowest(S.heap), !.cap = sz], S.ptr) ELSE S
+(* std::vector (the buffer of reusable_buffer_storage; S.cap is size() in bytes, S.heap[S.ptr] its block):
+   resize(n): within the capacity only the size changes; otherwise a new block of n bytes (the size
+   classes are at least a factor 2 apart, the replayer checks that), elements moved, old block released *)
+VecResize(S, n) ==
+    IF S.ptr # 0 /\ n <= S.heap[S.ptr] THEN [S EXCEPT !.cap = n]
+    ELSE [Replace(S, n) EXCEPT !.cap = n]
+(* shrink_to_fit(): nothing when capacity() = size(); otherwise a new exact block (none for size 0) *)
+VecShrink(S) ==
+    IF S.ptr = 0 \/ S.heap[S.ptr] = S.cap THEN S
+    ELSE IF S.cap = 0 THEN [DoDel(S, S.ptr) EXCEPT !.ptr = 0]
+    ELSE Replace(S, S.cap)
+(* reusable_buffer_storage::alloc, coro_storage.h:202-207: asks the buffer for its size, resizes when too small *)
+BufAlloc(S, sz) == IF S.cap < sz THEN VecResize(S, sz) ELSE S
 
 (* ---- frames ---- *)
-Rec(c, w, s, b, t, sh) ==
-    [c |-> c, live |-> TRUE, where |-> w, slot |-> s, blk |-> b, tr |-> t, sh |-> sh,
-     ct |-> IF Policy = "extra" THEN 1 ELSE 0, dt |-> 0]
+Rec(c, o, w, s, b, t, sh) ==
+    [c |-> c, o |-> o, live |-> TRUE, where |-> w, slot |-> s, blk |-> b, tr |-> t, sh |-> sh,
+     asz |-> BaseSz(c), dz |-> "live", eo |-> IF Ex THEN "obj" ELSE "none",
+     ct |-> IF Ex THEN 1 ELSE 0, dt |-> 0]
+(* the base policy's dealloc is called with the size its alloc was called with: dz = "same" *)
 Gone(r) ==
-    [c |-> 0, live |-> FALSE, where |-> "gone", slot |-> 0, blk |-> 0, tr |-> "gone", sh |-> FALSE,
-     ct |-> r.ct, dt |-> r.dt + (IF Policy = "extra" THEN 1 ELSE 0)]
+    [c |-> 0, o |-> 0, live |-> FALSE, where |-> "gone", slot |-> 0, blk |-> 0, tr |-> "gone", sh |-> FALSE,
+     asz |-> 0, dz |-> "same", eo |-> "gone",
+     ct |-> r.ct, dt |-> r.dt + (IF Ex THEN 1 ELSE 0)]
 
-Init == /\ env \in {[pol |-> p, init |-> i] : p \in Policies, i \in UNION {InitChoices(q) : q \in Policies}}
+BufInit == IF InitSize = 0 THEN 0 ELSE InitSize + Trailer    \* a buffer that just fits a frame of that class
+
+Init == /\ env \in {[pol |-> p, ex |-> x, init |-> i] : p \in Policies, x \in BOOLEAN,
+                                                       i \in UNION {InitChoices(q) : q \in Policies}}
         /\ env.init \in InitChoices(env.pol)
-        /\ heap = [s \in Slots |-> IF Policy = "buffer" /\ InitSize > 0 /\ s = 1 THEN InitSize ELSE 0]
-        /\ ptr = IF Policy = "buffer" /\ InitSize > 0 THEN 1 ELSE 0
-        /\ cap = IF Policy \in {"buffer", "stack", "placement"} THEN InitSize ELSE 0
+        /\ env.ex => env.pol \in ExPolicies
+        /\ heap = [s \in Slots |-> IF Policy = "buffer" /\ InitSize > 0 /\ s = 1 THEN BufInit ELSE 0]
+        /\ objs = [o \in 1..2 |->
+                     IF o = 2 THEN NoObj
+                     ELSE [st |-> "live",
+                           ptr |-> IF Policy = "buffer" /\ InitSize > 0 THEN 1 ELSE 0,
+                           cap |-> CASE Policy = "buffer" -> BufInit
+                                     [] Policy \in {"stack", "placement"} -> InitSize
+                                     [] OTHER -> 0,
+                           inv |-> 0, fac |-> TRUE]]
         /\ fr = <<>>
         /\ busy = FALSE
         /\ pc = [t \in Threads |-> Idle]
-        /\ news = 0 /\ dels = 0 /\ dbl = 0 /\ inv = 0
-        /\ torn = FALSE
+        /\ news = 0 /\ dels = 0 /\ dbl = 0
+        /\ torn = FALSE /\ nmov = 0 /\ nown = 0
 
 (* ---- policies whose alloc / dealloc contain no scheduling point: <<store', frame record>> ---- *)
-SeqCreate(c) ==
+SeqCreate(o, c) ==
+    LET S0 == St(o) IN
     CASE Policy = "default" ->       \* with_allocator.h:84
-           <<DoNew(St, Sz(c)), Rec(c, "heap", Lowest(heap), Sz(c), "none", FALSE)>>
+           <<DoNew(S0, Req(c)), Rec(c, o, "heap", Lowest(heap), Req(c), "none", FALSE)>>
       [] Policy = "reusable" ->      \* coro_storage.h:48
-           LET S == ReuseAlloc(St, Sz(c)) IN <<S, Rec(c, "heap", S.ptr, S.heap[S.ptr], "none", TRUE)>>
-      [] Policy = "buffer" ->        \* coro_storage.h:202
-           LET S == BufAlloc(St, Sz(c)) IN <<S, Rec(c, "heap", S.ptr, S.heap[S.ptr], "none", TRUE)>>
+           LET S == ReuseAlloc(S0, Req(c)) IN <<S, Rec(c, o, "heap", S.ptr, S.heap[S.ptr], "none", TRUE)>>
+      [] Policy = "buffer" ->        \* coro_storage.h:202; the frame may use size() bytes of the block
+           LET S == BufAlloc(S0, Req(c)) IN <<S, Rec(c, o, "heap", S.ptr, S.cap, "none", TRUE)>>
       [] Policy = "placement" ->     \* coro_storage.h:136: returns _p whatever the size
-           <<St, Rec(c, "place", 0, cap, "none", TRUE)>>
+           <<S0, Rec(c, o, "place", 0, S0.cap, "none", TRUE)>>
       [] Policy = "stack" ->         \* alloca_storage.h:38-50; _alloc_size = _state at construction
-           IF Sz(c) + Trailer <= cap
-             THEN <<St, Rec(c, "stack", 0, cap, "0", FALSE)>>
-             ELSE <<[DoNew(St, Sz(c) + Trailer) EXCEPT !.cap = Sz(c) + Trailer],
-                    Rec(c, "heap", Lowest(heap), Sz(c) + Trailer, "1", FALSE)>>
-      [] Policy = "extra" ->         \* coro_storage.h:228-233
-           <<DoNew(St, Sz(c) + Trailer), Rec(c, "heap", Lowest(heap), Sz(c) + Trailer, "obj", FALSE)>>
+           IF Req(c) <= S0.cap
+             THEN <<S0, Rec(c, o, "stack", 0, S0.cap, "0", FALSE)>>
+             ELSE <<[DoNew(S0, Req(c)) EXCEPT !.cap = Req(c)],
+                    Rec(c, o, "heap", Lowest(heap), Req(c), "1", FALSE)>>
 
 SeqComplete(f) ==
-    CASE Policy \in {"default", "extra"} -> DoDel(St, fr[f].slot)   \* with_allocator.h:88, coro_storage.h:235-239
-      [] Policy = "stack" -> IF fr[f].tr = "1" THEN DoDel(St, fr[f].slot) ELSE St   \* alloca_storage.h:52-55
-      [] OTHER -> St                                                  \* dealloc is empty
+    LET S0 == St(1) IN
+    CASE Policy = "default" -> DoDel(S0, fr[f].slot)                 \* with_allocator.h:88
+      [] Policy = "stack" -> IF fr[f].tr = "1" THEN DoDel(S0, fr[f].slot) ELSE S0   \* alloca_storage.h:52-55
+      [] OTHER -> S0                                                  \* dealloc is empty
 
-CanCreate(t, c) ==
+CanCreate(t, c, o) ==
     /\ ~torn /\ At(t, "idle") /\ c \in Classes
-    /\ Len(fr) + Cardinality(Creating) < MaxCreate
-    /\ Cardinality(Live) + Cardinality(Creating) < MaxLive
-    /\ Policy = "placement" => Sz(c) <= cap     \* precondition: the caller's buffer is large enough
+    /\ objs[o].st = "live"
+    /\ Ex => objs[o].fac                          \* a storage whose factory was moved out cannot be used
+    /\ Len(fr) + Cardinality(Creating) < MaxFrames
+    /\ Cardinality(LiveOn(o)) + Cardinality(Creating) < MaxLive
+    /\ Policy = "placement" => Req(c) <= objs[o].cap     \* precondition: the caller's buffer is large enough
 
 (* reusable_storage_mtsafe::alloc, coro_storage.h:155-165.  The step performs `_busy.exchange(true)`
    and the thread-local code after it up to the next scheduling point. *)
 MtCreate(t, c) ==
-    LET sz == Sz(c) + Trailer IN
+    LET sz == Req(c) IN
     /\ busy' = TRUE
     /\ IF busy
          THEN   \* the exchange returned true: somebody holds the block -> plain heap block
               IF Grain = "alloc"
                 THEN /\ Park(t, "new_heap", c, 0) /\ Same /\ UNCHANGED fr
-                ELSE /\ Commit(DoNew(St, sz))
-                     /\ fr' = Append(fr, Rec(c, "heap", Lowest(heap), sz, "own", FALSE))
+                ELSE /\ CommitI(1, DoNew(St(1), sz), NewInv(1))
+                     /\ fr' = Append(fr, Rec(c, 1, "heap", Lowest(heap), sz, "own", FALSE))
                      /\ UNCHANGED pc
          ELSE IF sz <= cap
            THEN \* the block _ptr designates is taken as it is (blk: what is really allocated there)
-                /\ fr' = Append(fr, Rec(c, "heap", ptr, heap[ptr], "own", TRUE))
-                /\ Same /\ UNCHANGED pc
+                /\ fr' = Append(fr, Rec(c, 1, "heap", ptr, heap[ptr], "own", TRUE))
+                /\ CommitI(1, St(1), NewInv(1)) /\ UNCHANGED pc
          ELSE IF Grain = "alloc"
            THEN /\ Park(t, IF Fixed \/ ptr = 0 THEN "new_shared" ELSE "del_old", c, 0)
                 /\ Same /\ UNCHANGED fr
-           ELSE LET S == Grow(St, sz) IN
-                /\ Commit(S)
-                /\ fr' = Append(fr, Rec(c, "heap", S.ptr, S.heap[S.ptr], "own", TRUE))
+           ELSE LET S == Grow(St(1), sz) IN
+                /\ CommitI(1, S, NewInv(1))
+                /\ fr' = Append(fr, Rec(c, 1, "heap", S.ptr, S.heap[S.ptr], "own", TRUE))
                 /\ UNCHANGED pc
 
-Create(t, c) ==
-    /\ CanCreate(t, c)
-    /\ UNCHANGED <<env, torn>>
+CreateOn(t, c, o) ==
+    /\ CanCreate(t, c, o)
+    /\ UNCHANGED <<env, torn, nmov, nown>>
     /\ IF Policy = "mtsafe"
-         THEN MtCreate(t, c) /\ UNCHANGED inv
-         ELSE LET r == SeqCreate(c) IN
-              /\ Commit(r[1])
+         THEN MtCreate(t, c)
+         ELSE LET r == SeqCreate(o, c) IN
+              /\ CommitI(o, r[1], NewInv(o))
               /\ fr' = Append(fr, r[2])
-              /\ inv' = IF Policy = "extra" THEN Len(fr) + 1 ELSE inv   \* coro_storage.h:231
               /\ UNCHANGED <<busy, pc>>
+
+Create(t, c) == CreateOn(t, c, 1)
+CreateB(t, c) == Movable /\ CreateOn(t, c, 2)      \* a frame on the second storage object
 
 (* an operator new call of the storage (grain "alloc") *)
 New(t) ==
     /\ pc[t].at \in {"new_heap", "new_shared"}
-    /\ UNCHANGED <<env, busy, inv, torn>>
+    /\ UNCHANGED <<env, busy, torn, nmov, nown>>
     /\ LET c == pc[t].c
-           sz == Sz(c) + Trailer
+           sz == Req(c)
            s == Lowest(heap) IN
        IF At(t, "new_heap")
-         THEN /\ Commit(DoNew(St, sz))
-              /\ fr' = Append(fr, Rec(c, "heap", s, sz, "own", FALSE))
+         THEN /\ Commit(1, DoNew(St(1), sz))
+              /\ fr' = Append(fr, Rec(c, 1, "heap", s, sz, "own", FALSE))
               /\ Resume(t)
          ELSE IF Fixed /\ ptr # 0
            THEN \* the new block is published; the old one is still to be released
-                /\ Commit([DoNew(St, sz) EXCEPT !.ptr = s])
+                /\ Commit(1, [DoNew(St(1), sz) EXCEPT !.ptr = s])
                 /\ Park(t, "del_after", c, ptr)
                 /\ UNCHANGED fr
-           ELSE /\ Commit([DoNew(St, sz) EXCEPT !.ptr = s, !.cap = sz])
-                /\ fr' = Append(fr, Rec(c, "heap", s, sz, "own", TRUE))
+           ELSE /\ Commit(1, [DoNew(St(1), sz) EXCEPT !.ptr = s, !.cap = sz])
+                /\ fr' = Append(fr, Rec(c, 1, "heap", s, sz, "own", TRUE))
                 /\ Resume(t)
 
 (* an operator delete call of the storage (grain "alloc") *)
 Del(t) ==
     /\ pc[t].at \in {"del_old", "del_after", "delete"}
-    /\ UNCHANGED <<env, busy, inv, torn>>
+    /\ UNCHANGED <<env, busy, torn, nmov, nown>>
     /\ LET c == pc[t].c
-           sz == Sz(c) + Trailer IN
+           sz == Req(c) IN
        CASE At(t, "del_old") ->      \* coro_storage.h:50: _ptr keeps the released address until line 51
-              /\ Commit(DoDel(St, ptr))
+              /\ Commit(1, DoDel(St(1), ptr))
               /\ Park(t, "new_shared", c, 0)
               /\ UNCHANGED fr
          [] At(t, "del_after") ->
-              /\ Commit([DoDel(St, pc[t].slot) EXCEPT !.cap = sz])
-              /\ fr' = Append(fr, Rec(c, "heap", ptr, sz, "own", TRUE))
+              /\ Commit(1, [DoDel(St(1), pc[t].slot) EXCEPT !.cap = sz])
+              /\ fr' = Append(fr, Rec(c, 1, "heap", ptr, sz, "own", TRUE))
               /\ Resume(t)
          [] At(t, "delete") ->       \* coro_storage.h:172
-              /\ Commit(DoDel(St, pc[t].slot))
+              /\ Commit(1, DoDel(St(1), pc[t].slot))
               /\ Resume(t)
               /\ UNCHANGED fr
 
 (* the coroutine finishes (or is destroyed): frame destructed, promise operator delete ->
-   Policy::dealloc.  reusable_storage_mtsafe::dealloc, coro_storage.h:166-174, reads the owner
+   Policy::dealloc (under the attached-object layer: the object is destroyed, then the base's dealloc
+   is called with the size the base's alloc got, coro_storage.h:235-239).
+   reusable_storage_mtsafe::dealloc, coro_storage.h:166-174, reads the owner
    pointer behind the frame and compares the frame's address with the owner's _ptr. *)
 Complete(t, f) ==
     /\ ~torn /\ At(t, "idle") /\ f \in Live
     /\ fr' = [fr EXCEPT ![f] = Gone(@)]
-    /\ UNCHANGED <<env, inv, torn>>
+    /\ UNCHANGED <<env, torn, nmov, nown>>
     /\ IF Policy = "mtsafe"
          THEN IF fr[f].slot = ptr
                 THEN IF Grain = "call"
@@ -256,29 +310,102 @@ Complete(t, f) ==
                        ELSE Park(t, "store", 0, 0) /\ Same /\ UNCHANGED busy
                 ELSE IF Grain = "alloc"
                        THEN Park(t, "delete", 0, fr[f].slot) /\ Same /\ UNCHANGED busy
-                       ELSE Commit(DoDel(St, fr[f].slot)) /\ UNCHANGED <<busy, pc>>
-         ELSE Commit(SeqComplete(f)) /\ UNCHANGED <<busy, pc>>
+                       ELSE Commit(1, DoDel(St(1), fr[f].slot)) /\ UNCHANGED <<busy, pc>>
+         ELSE CommitH(SeqComplete(f)) /\ UNCHANGED <<objs, busy, pc>>
 
 (* `me->_busy.store(false)`, coro_storage.h:170 *)
 Store(t) ==
     /\ At(t, "store")
     /\ busy' = FALSE
     /\ Resume(t)
-    /\ Same /\ UNCHANGED <<env, fr, inv, torn>>
+    /\ Same /\ UNCHANGED <<env, fr, torn, nmov, nown>>
 
-(* the storage object is destroyed (no frame alive): ~reusable_storage, ~vector *)
+-----------------------------------------------------------------------------
+(* reusable_storage is movable (coro_storage.h:33-43); with the attached-object layer the factory and
+   `inventory` travel along.  Storage objects are constructed, moved and destroyed while no frame is alive. *)
+Quiet == ~torn /\ Live = {} /\ \A t \in Threads : At(t, "idle")
+MoveOK == Movable /\ Quiet /\ nmov < MaxMoves
+
+(* a second, default constructed storage *)
+NewObj ==
+    /\ MoveOK /\ objs[2].st = "none"
+    /\ objs' = [objs EXCEPT ![2] = [st |-> "live", ptr |-> 0, cap |-> 0, inv |-> 0, fac |-> TRUE]]
+    /\ nmov' = nmov + 1
+    /\ UNCHANGED <<env, heap, fr, busy, pc, news, dels, dbl, torn, nown>>
+
+(* reusable_storage b(std::move(a)), coro_storage.h:33-35: block and capacity go to the new object together *)
+MoveCtor ==
+    /\ MoveOK /\ objs[2].st = "none" /\ objs[1].st = "live"
+    /\ objs' = [objs EXCEPT ![2] = [objs[1] EXCEPT !.st = "live"],
+                            ![1] = [objs[1] EXCEPT !.ptr = 0, !.cap = 0, !.fac = ~Ex]]
+    /\ nmov' = nmov + 1
+    /\ UNCHANGED <<env, heap, fr, busy, pc, news, dels, dbl, torn, nown>>
+
+(* d = std::move(s), coro_storage.h:36-43: d's block is released, (block, capacity) of s move to d, s is empty;
+   self-assignment changes nothing *)
+MoveAssign(s, d) ==
+    /\ MoveOK /\ objs[s].st = "live" /\ objs[d].st = "live"
+    /\ nmov' = nmov + 1
+    /\ UNCHANGED <<env, fr, busy, pc, torn, nown>>
+    /\ IF s = d THEN Same
+       ELSE /\ CommitH(DoDel(St(d), objs[d].ptr))
+            /\ objs' = [objs EXCEPT ![d] = [objs[s] EXCEPT !.st = "live"],
+                                    ![s] = [objs[s] EXCEPT !.ptr = 0, !.cap = 0, !.fac = ~Ex]]
+
+(* one of two storage objects is destroyed, the other one lives on *)
+Drop(o) ==
+    /\ MoveOK /\ objs[o].st = "live" /\ objs[3 - o].st = "live"
+    /\ CommitH(DoDel(St(o), objs[o].ptr))
+    /\ objs' = [objs EXCEPT ![o] = [NoObj EXCEPT !.st = "dead"]]
+    /\ nmov' = nmov + 1
+    /\ UNCHANGED <<env, fr, busy, pc, torn, nown>>
+
+-----------------------------------------------------------------------------
+(* reusable_buffer_storage does not own its buffer: while no coroutine is active the owner may do with the
+   vector what it likes (coro_storage.h:184-192).  Sizes are those of the frame classes. *)
+OwnOK == Policy = "buffer" /\ Quiet /\ nown < MaxOwner
+OwnDone(S) == /\ Commit(1, S) /\ nown' = nown + 1
+              /\ UNCHANGED <<env, fr, busy, pc, torn, nmov>>
+
+OwnerResize(k) ==          \* buf.resize(n): smaller keeps the block, larger may reallocate
+    /\ OwnOK /\ k \in Classes /\ Req(k) # cap
+    /\ OwnDone(VecResize(St(1), Req(k)))
+OwnerShrink ==             \* buf.shrink_to_fit()
+    /\ OwnOK /\ ptr # 0 /\ heap[ptr] # cap
+    /\ OwnDone(VecShrink(St(1)))
+OwnerClear ==              \* buf.clear(); buf.shrink_to_fit()
+    /\ OwnOK /\ ptr # 0
+    /\ OwnDone(VecShrink([St(1) EXCEPT !.cap = 0]))
+OwnerMoveOut ==            \* std::vector taken(std::move(buf)); the block leaves with it
+    /\ OwnOK /\ ptr # 0
+    /\ OwnDone([DoDel(St(1), ptr) EXCEPT !.ptr = 0, !.cap = 0])
+OwnerSwap(k) ==            \* std::vector fresh(n); buf.swap(fresh): another block, the old one is released
+    /\ OwnOK /\ k \in Classes
+    /\ OwnDone([Replace(St(1), Req(k)) EXCEPT !.cap = Req(k)])
+
+-----------------------------------------------------------------------------
+(* the storage objects are destroyed (no frame alive): ~reusable_storage, ~vector *)
 Teardown ==
-    /\ ~torn /\ Live = {} /\ \A t \in Threads : At(t, "idle")
+    /\ Quiet
     /\ torn' = TRUE
     /\ IF Policy \in {"reusable", "mtsafe", "buffer"}
-         THEN Commit([DoDel(St, ptr) EXCEPT !.ptr = 0, !.cap = 0])
-         ELSE Same
-    /\ inv' = 0
-    /\ UNCHANGED <<env, fr, busy, pc>>
+         THEN LET S2 == DoDel(St(2), objs[2].ptr) IN
+              CommitH(DoDel(S2, objs[1].ptr))
+         ELSE UNCHANGED <<heap, news, dels, dbl>>
+    /\ objs' = [o \in 1..2 |-> IF objs[o].st = "live"
+                                  THEN [NoObj EXCEPT !.st = "dead",
+                                                     !.cap = IF Policy \in {"stack", "placement"} THEN objs[o].cap ELSE 0]
+                                  ELSE objs[o]]
+    /\ UNCHANGED <<env, fr, busy, pc, nmov, nown>>
 
-Next == \/ \E t \in Threads, c \in 1..3 : Create(t, c)
+Next == \/ \E t \in Threads, c \in 1..3 : Create(t, c) \/ CreateB(t, c)
         \/ \E t \in Threads, f \in 1..MaxCreate : Complete(t, f)
         \/ \E t \in Threads : New(t) \/ Del(t) \/ Store(t)
+        \/ NewObj \/ MoveCtor
+        \/ \E s, d \in 1..2 : MoveAssign(s, d)
+        \/ \E o \in 1..2 : Drop(o)
+        \/ \E k \in 1..3 : OwnerResize(k) \/ OwnerSwap(k)
+        \/ OwnerShrink \/ OwnerClear \/ OwnerMoveOut
         \/ Teardown
 
 Spec == Init /\ [][Next]_vars
@@ -286,9 +413,12 @@ Spec == Init /\ [][Next]_vars
 -----------------------------------------------------------------------------
 (* Properties (C19) *)
 
+ASSUME Cardinality(Threads) > 1 => ExPolicies = {}      \* the layer is modelled at grain "call" only
+
 TypeOK == /\ \A s \in Slots : heap[s] \in Nat
-          /\ ptr \in 0..NSlots /\ busy \in BOOLEAN /\ torn \in BOOLEAN
-          /\ Len(fr) <= MaxCreate /\ Cardinality(Live) <= MaxLive
+          /\ \A o \in 1..2 : objs[o].ptr \in 0..NSlots
+          /\ busy \in BOOLEAN /\ torn \in BOOLEAN
+          /\ Len(fr) <= MaxFrames /\ \A o \in 1..2 : Cardinality(LiveOn(o)) <= MaxLive
           /\ FreeSlots(heap) # {}      \* the bounded heap is never the limiting factor
 
 (* memory region a live frame sits in: a heap block, its own alloca buffer, the placement buffer *)
@@ -299,21 +429,34 @@ Region(f) == CASE fr[f].where = "heap" -> <<"heap", fr[f].slot>>
 (* no two simultaneously live frames in the same memory ... *)
 Exclusive == \A f, g \in Live : f # g => Region(f) # Region(g)
 
-(* ... and the memory of a live frame stays allocated, with the size it had when the frame was placed in it *)
-BlockAlive == \A f \in Live : fr[f].where = "heap" => (heap[fr[f].slot] # 0 /\ heap[fr[f].slot] = fr[f].blk)
+(* ... and the memory of a live frame stays allocated, with (buffer: at least) the size it had when the
+   frame was placed in it *)
+BlockAlive == \A f \in Live : fr[f].where = "heap" =>
+                 /\ heap[fr[f].slot] # 0
+                 /\ IF Policy = "buffer" THEN heap[fr[f].slot] >= fr[f].blk ELSE heap[fr[f].slot] = fr[f].blk
 
-(* outside of alloc the policy's size bookkeeping describes its block *)
+(* outside of alloc the size bookkeeping of every storage object describes its block: (block, capacity)
+   travel together; two storage objects never own the same block *)
 BookkeepingTruthful ==
-    (Policy \in {"reusable", "mtsafe", "buffer"} /\ \A t \in Threads : pc[t].at \notin {"del_old", "new_shared", "del_after"})
-        => IF ptr = 0 THEN cap = 0 ELSE heap[ptr] = cap
+    /\ (Policy \in {"reusable", "mtsafe", "buffer"} /\ \A t \in Threads : pc[t].at \notin {"del_old", "new_shared", "del_after"})
+        => \A o \in 1..2 : IF objs[o].ptr = 0 THEN objs[o].cap = 0
+                           ELSE IF Policy = "buffer" THEN heap[objs[o].ptr] >= objs[o].cap
+                           ELSE heap[objs[o].ptr] = objs[o].cap
+    /\ objs[1].ptr # 0 => objs[1].ptr # objs[2].ptr
+    /\ \A o \in 1..2 : objs[o].st # "live" => objs[o].ptr = 0
 
-(* the memory is at least as large as the frame plus what the policy puts behind it *)
+(* the memory is at least as large as the frame plus everything the policy puts behind it, whatever
+   happened to the storage object or to the buffer while no frame was alive *)
 LargeEnough == \A f \in Live : fr[f].blk >= Sz(fr[f].c) + Trailer
 
-(* every allocated heap block is accounted for (a live frame's block, the policy's own block, or
+(* the base policy's dealloc is told the size its alloc was told *)
+SizeRoundTrip == \A i \in 1..Len(fr) : IF fr[i].live THEN fr[i].asz = BaseSz(fr[i].c) /\ fr[i].dz = "live"
+                                       ELSE fr[i].dz = "same"
+
+(* every allocated heap block is accounted for (a live frame's block, a storage object's own block, or
    a block some thread is about to release) and nothing is released twice: heap blocks -- fallback
    blocks in particular -- are released exactly once *)
-Accounted(s) == \/ s = ptr
+Accounted(s) == \/ \E o \in 1..2 : s = objs[o].ptr
                 \/ \E f \in Live : fr[f].slot = s
                 \/ \E t \in Threads : pc[t].at \in {"del_after", "delete"} /\ pc[t].slot = s
 HeapFallbackFreedOnce ==
@@ -338,34 +481,40 @@ MtSafeNeverShares ==
                          /\ SharedUsers = 1 => busy
                          /\ \A f \in Live : fr[f].sh => fr[f].slot = ptr
 
-(* single-frame policies are used with one live frame at a time: then the frame is in the block *)
+(* single-frame policies are used with one live frame at a time per storage object: then the frame is in
+   that object's block *)
 ReuseBlock ==
-    Policy \in {"reusable", "buffer"} => \A f \in Live : fr[f].slot = ptr /\ fr[f].blk = cap
+    Policy \in {"reusable", "buffer"} =>
+        \A f \in Live : fr[f].slot = objs[fr[f].o].ptr /\ fr[f].blk = objs[fr[f].o].cap
 
-(* extra<T>: one construction per frame, one destruction together with the frame *)
+(* attached object: one construction per frame, one destruction together with the frame *)
 ExtraCtorDtorOnce ==
     \A i \in 1..Len(fr) :
-        IF Policy = "extra"
-          THEN fr[i].ct = 1 /\ fr[i].dt = (IF fr[i].live THEN 0 ELSE 1) /\ (fr[i].live => fr[i].tr = "obj")
+        IF Ex
+          THEN fr[i].ct = 1 /\ fr[i].dt = (IF fr[i].live THEN 0 ELSE 1) /\ (fr[i].live => fr[i].eo = "obj")
           ELSE fr[i].ct = 0 /\ fr[i].dt = 0
 
-(* extra<T>: as soon as the coroutine object exists the storage designates its attached object *)
+(* attached object: as soon as the coroutine object exists the storage it was created on designates it *)
 ExtraUsableAtCreation ==
-    [][(Policy = "extra" /\ Len(fr') > Len(fr)) =>
-          (inv' = Len(fr') /\ fr'[inv'].live /\ fr'[inv'].tr = "obj" /\ fr'[inv'].ct = 1 /\ fr'[inv'].dt = 0)]_vars
+    [][(Ex /\ Len(fr') > Len(fr)) =>
+          LET n == Len(fr') IN
+          (objs'[fr'[n].o].inv = n /\ fr'[n].live /\ fr'[n].eo = "obj" /\ fr'[n].ct = 1 /\ fr'[n].dt = 0)]_vars
 
 (* after warm-up (the policy's bookkeeping already covers the size) a creation allocates nothing *)
-Warm(c) == \/ Policy = "reusable" /\ Sz(c) <= cap
-           \/ Policy = "buffer" /\ Sz(c) <= cap
-           \/ Policy = "stack" /\ Sz(c) + Trailer <= cap
-           \/ Policy = "mtsafe" /\ ~busy /\ Sz(c) + Trailer <= cap
-           \/ Policy = "placement"
+Warm(o, c) == \/ Policy = "reusable" /\ Req(c) <= objs[o].cap
+              \/ Policy = "buffer" /\ Req(c) <= cap
+              \/ Policy = "stack" /\ Req(c) <= cap
+              \/ Policy = "mtsafe" /\ ~busy /\ Req(c) <= cap
+              \/ Policy = "placement"
 WarmNoAlloc ==
-    [][\A t \in Threads, c \in Classes :
-          (Create(t, c) /\ Warm(c)) => (news' = news /\ dels' = dels /\ heap' = heap /\ Len(fr') = Len(fr) + 1)]_vars
+    [][\A t \in Threads, c \in Classes, o \in 1..2 :
+          (CreateOn(t, c, o) /\ Warm(o, c)) => (news' = news /\ dels' = dels /\ heap' = heap /\ Len(fr') = Len(fr) + 1)]_vars
 
 (* completion of a frame never allocates; for the single-block policies it releases nothing *)
 CompleteNoAlloc ==
     [][\A t \in Threads, f \in 1..MaxCreate : Complete(t, f) => news' = news]_vars
+
+(* moving storage objects around never allocates, and releases only the block of an assigned-to object *)
+MoveNoAlloc == [][nmov' > nmov => news' = news]_vars
 
 =============================================================================
